@@ -30,6 +30,7 @@ FixDist(s) == C(FixDC[s], 5)
 \* two distance codes of 1 bit; the code length alphabet uses 1, 2 and 18
 DLit  == [s \in 0..257 |-> IF s = 65 THEN 1 ELSE IF s \in {256, 257} THEN 2 ELSE 0]
 DDist == [s \in 0..1 |-> 1]
+DLit8 == [s \in 0..257 |-> IF s \in 65..71 THEN s - 64 ELSE IF s \in {256, 257} THEN 8 ELSE 0]
 DCl   == [s \in 0..18 |-> IF s = 18 THEN 1 ELSE IF s \in {1, 2} THEN 2 ELSE 0]
 DItems == << <<18, 54>>, <<1, 0>>, <<18, 127>>, <<18, 41>>, <<2, 0>>, <<2, 0>>, <<1, 0>>, <<1, 0>> >>
 DynHdrFields(fin, hlitf, hdistf, hclen, cl, items) ==
@@ -66,6 +67,16 @@ Catalogue == {
        DynBlockWith(1, 1, 0, 19, [DCl EXCEPT ![0] = 2, ![1] = 3, ![2] = 3],
                     << <<18, 54>>, <<1, 0>>, <<18, 127>>, <<18, 41>>, <<2, 0>>, <<2, 0>>, <<0, 0>> >>,
                     << Lit(65) >>, DLit, [s \in 0..0 |-> 0]), "accept", ""),
+  Case("dynamic-explicit-only",           \* no run-length symbol at all: the code length alphabet uses 0, 1, 2 only
+       DynHdrFields(1, 1, 1, 19, [s \in 0..18 |-> IF s = 0 THEN 1 ELSE IF s \in {1, 2} THEN 2 ELSE 0],
+                    [i \in 1..260 |-> IF i = 66 THEN <<1, 0>> ELSE IF i \in {257, 258} THEN <<2, 0>>
+                                       ELSE IF i \in {259, 260} THEN <<1, 0>> ELSE <<0, 0>>])
+       \o BlockBody(DToks, Canon(DLit), DLit, Canon(DDist), DDist), "accept", ""),
+  Case("dynamic-explicit-lengths-to-8",   \* explicit lengths only, up to 8: the code length alphabet uses 0..8 and nothing above
+       DynHdrFields(1, 1, 1, 19, [s \in 0..18 |-> IF s = 0 THEN 1 ELSE IF s \in 1..8 THEN 4 ELSE 0],
+                    [i \in 1..260 |-> IF i \in 66..72 THEN <<i - 65, 0>> ELSE IF i \in {257, 258} THEN <<8, 0>>
+                                       ELSE IF i \in {259, 260} THEN <<1, 0>> ELSE <<0, 0>>])
+       \o BlockBody(DToks, Canon(DLit8), DLit8, Canon(DDist), DDist), "accept", ""),
   \* ---- one input per way a production can fail
   Case("block-type-3", << F(1, 1), F(3, 2), F(0, 5) >>, "reject", "block-type"),
   Case("stored-nlen", HeaderFields(1, 0) \o << F(0, 5), F(2, 16), F(65532, 16), F(7, 8), F(8, 8) >>, "reject", "len-nlen"),
